@@ -55,7 +55,8 @@ Matrix ==
 Aux == [v \in AllVersions |->
           [stable |-> v \in StableVersions,
            notifications |-> BaseOf(v) >= 6,      \* v6: notifications levels are checked in power-level events
-           creatorfield |-> BaseOf(v) <= 10]]     \* v11: content.creator is no longer required
+           creatorfield |-> BaseOf(v) <= 10,      \* v11: content.creator is no longer required
+           pseudoids |-> v = "org.matrix.msc4014"]] \* MSC4014: the sender is a per-room key, not a user ID
 
 Traits == {"stateres", "format", "idformat", "redaction", "strictkeys", "canonjson", "intpl", "knock",
            "restricted", "knockrestricted", "creators", "domainless"}
@@ -75,7 +76,16 @@ ProbeTrait ==
       restricted_func |-> "restricted", restricted_servername |-> "restricted", restricted_auth |-> "restricted",
       creator_power |-> "creators", creator_in_pl |-> "creators",
       domainless_create |-> "domainless", create_with_room_id |-> "domainless",
-      notif_check |-> "aux:notifications", create_no_creator |-> "aux:creatorfield" ]
+      notif_check |-> "aux:notifications", create_no_creator |-> "aux:creatorfield",
+      \* hardening pass: second entry points, boundaries, fields that must have no effect
+      headered_roundtrip |-> "format", build_reuse |-> "format",
+      key_boundary |-> "strictkeys",
+      canon_maxint |-> "canonjson", canon_exponent |-> "canonjson",
+      pl_string_users |-> "intpl",
+      restricted_assist |-> "restricted",
+      addl_creator_power |-> "creators",
+      receipt_domainless_room_id |-> "domainless",
+      sender_not_user_id |-> "aux:pseudoids" ]
 Probes == DOMAIN ProbeTrait
 
 Kept(b) == IF b THEN "kept" ELSE "dropped"
@@ -118,6 +128,16 @@ Want(p, v) ==
       [] p = "create_with_room_id"  -> IF m.domainless THEN "rejected" ELSE "ok"
       [] p = "notif_check"          -> IF Aux[v].notifications THEN "rejected" ELSE "allowed"
       [] p = "create_no_creator"    -> IF Aux[v].creatorfield THEN "rejected" ELSE "allowed"
+      [] p = "headered_roundtrip"   -> "same"                          \* ToHeaderedJSON / NewEventFromHeaderedJSON: same version, same ID
+      [] p = "build_reuse"          -> "stable"                        \* one builder, two Builds: both in the version's format
+      [] p = "key_boundary"         -> "valid"                         \* event exactly at valid_until_ts
+      [] p = "canon_maxint"         -> "accepted"                      \* 2^53 - 1 and -(2^53 - 1)
+      [] p = "canon_exponent"       -> IF m.canonjson THEN "rejected" ELSE "accepted"   \* 1e2
+      [] p = "pl_string_users"      -> IF m.intpl THEN "rejected" ELSE "ok:50"          \* a string level inside the users map
+      [] p = "restricted_assist"    -> IF m.restricted THEN "@creator:hs1" ELSE ""      \* CheckRestrictedJoin names an authorising user
+      [] p = "addl_creator_power"   -> Acc(m.creators)                 \* additional_creators has no effect without privileged creators
+      [] p = "receipt_domainless_room_id" -> IF m.domainless THEN "accepted" ELSE "rejected"
+      [] p = "sender_not_user_id"   -> IF Aux[v].pseudoids THEN "accepted" ELSE "rejected"
 
 \* traits without a behavioural probe of their own: stateres (an enumeration the caller dispatches on in
 \* ResolveConflicts; the algorithms are C10/C11) and knockrestricted (departure A7 of DESIGN.md section 5.1:
@@ -143,7 +163,7 @@ MatchesMatrixBase ==
        /\ m.knockrestricted = KnockRestrictedInSpec(v) /\ m.creators = PrivilegedCreators(v)
        /\ m.domainless = DomainlessRoomIDs(v)
        /\ Aux[v].notifications = NotificationsChecked(v) /\ Aux[v].creatorfield = CreatorFieldRequired(v)
-       /\ Aux[v].stable = Stable(v)
+       /\ Aux[v].stable = Stable(v) /\ Aux[v].pseudoids = PseudoIDs(v)
 \* later versions only add: every boolean trait is monotone along the stable line, numeric ones never decrease
 Monotone ==
     \A a, c \in StableVersions : BaseOf(a) <= BaseOf(c) =>
